@@ -5,7 +5,7 @@
    reference server (Spec/Modbus.v) on a case. Depends neither on the model of the code nor on
    generated tables, so the Spec can still be evaluated when those no longer compile. *)
 From Coq Require Import NArith List Bool Arith String Ascii.
-From Rodbus Require Import Base.Show Base.ServerTypes Spec.Modbus.
+From Rodbus Require Import Base.Outcome Base.Show Base.ServerTypes Base.ServerRun Spec.Modbus.
 Import ListNotations.
 Local Open Scope N_scope.
 
@@ -148,9 +148,27 @@ Definition show_replies (rs : list (list N)) : string :=
   | [] => "-"
   | _ => concat "," (map (fun r => match r with [] => "-" | _ => show_bytes r end) rs)
   end.
-Definition case := (link * list (N * pstate) * auth_cfg * list frame)%type.
+(* a case: link, unit id -> handler object index (ascending unit id), the handler objects with their
+   initial states, authorization, frames. Unit ids that share an object have the same index. *)
+Definition case := (link * list (N * N) * list (N * pstate) * auth_cfg * list frame)%type.
+Definition empty_pstate : pstate :=
+  {| p_m := 0; p_c := 0; p_rex := []; p_wex := []; p_coils := []; p_discrete := []; p_holding := []; p_input := [] |}.
+Definition mkunits (m : list (N * N)) (hs : list (N * pstate)) : ucfg pstate :=
+  {| u_map := m; u_store := fun h => match assoc h hs with Some s => s | None => empty_pstate end |}.
 
 Definition run_spec (c : case) : string :=
-  let '(l, units, a, frames) := c in
-  let '(rs, _, log) := ref_session prog l (auth_spec a) units frames in
+  let '(l, m, hs, a, frames) := c in
+  let '(rs, _, log) := ref_session prog l (auth_spec a) (mkunits m hs) frames in
   show_replies rs ++ "|" ++ show_log log ++ "|open".
+
+(* ---------------------------------------------------------------- sessions with commands *)
+Definition ecase := (link * list (N * N) * list (N * pstate) * auth_cfg * list sevent)%type.
+Definition show_run_end {E} (she : E -> string) (e : run_end E) : string :=
+  match e with
+  | ROpen => "open" | RBlocked _ => "blocked" | RShutdown => "Shutdown" | RError x => she x | RPanic => "PANIC"
+  end.
+Definition run_spec_ev (c : ecase) : string :=
+  let '(l, m, hs, a, evs) := c in
+  let '(ws, _, log, _, e) :=
+    run (E := unit) (fun u f => ok_result (ref_handle_frame prog l (auth_spec a) u f)) (mkunits m hs) 0 MIdle evs in
+  show_replies ws ++ "|" ++ show_log log ++ "|" ++ show_run_end (fun _ => "?") e.
